@@ -34,6 +34,9 @@ type c17Plan struct {
 	Actions  []c17Action
 	Faults   []simFault
 	ReadOnly int // virtual ms after start at which the log becomes read-only (0: never)
+	// clock anomaly: from FreezeAt virtual ms after start on, the log's clock (timeNowUnixMilli) stops advancing
+	// (FreezeBack = 0) or has stepped back by FreezeBack ms and stands still there
+	FreezeAt, FreezeBack int
 }
 
 func c17GenPlan(t *rapid.T) c17Plan {
@@ -70,6 +73,10 @@ func c17GenPlan(t *rapid.T) c17Plan {
 	if rapid.IntRange(0, 3).Draw(t, "readOnly") == 0 {
 		p.ReadOnly = 100 + 250*rapid.IntRange(1, 20).Draw(t, "readOnlyAt") + 30
 	}
+	if rapid.IntRange(0, 4).Draw(t, "clockAnomaly") == 1 {
+		p.FreezeAt = 100 + 250*rapid.IntRange(1, 20).Draw(t, "freezeAt") + 60
+		p.FreezeBack = rapid.SampledFrom([]int{0, 0, 1, 700, 60_000}).Draw(t, "freezeBack")
+	}
 	return p
 }
 
@@ -85,6 +92,8 @@ type c17Waiter struct {
 	err     error
 	doneAt  time.Time
 	evicted bool
+	// submitted when the sequencer was already known to have stopped
+	afterStop bool
 }
 
 func (w *c17Waiter) outcome() (bool, *sunlight.LogEntry, error) {
@@ -105,8 +114,14 @@ func c17Run(t *testing.T, plan c17Plan, dir string, st map[string]int, desc *[]s
 		s := newSimSys(t, dir)
 		s.strictModel = false
 		s.pool = plan.PoolSize
-		timeNowUnixMilli = func() int64 { return time.Now().UnixMilli() }
 		start := time.Now()
+		timeNowUnixMilli = func() int64 {
+			now := time.Now()
+			if plan.FreezeAt > 0 && now.Sub(start) >= time.Duration(plan.FreezeAt)*time.Millisecond {
+				return start.UnixMilli() + int64(plan.FreezeAt) - int64(plan.FreezeBack)
+			}
+			return now.UnixMilli()
+		}
 		if _, err := s.create(nil); err != nil {
 			fail("VERIF-INCONCLUSIVE: create: %v", err)
 			return
@@ -187,7 +202,7 @@ func c17Run(t *testing.T, plan c17Plan, dir string, st map[string]int, desc *[]s
 				fail("a checkpoint was signed after the sequencer stopped (%s)", where)
 			}
 			// past the read-only date the next tick must stop the sequencer for good
-			if plan.ReadOnly > 0 && !stopSeen && time.Since(start) > time.Duration(plan.ReadOnly+10+1000+5)*time.Millisecond {
+			if plan.ReadOnly > 0 && plan.FreezeAt == 0 && !stopSeen && time.Since(start) > time.Duration(plan.ReadOnly+10+1000+5)*time.Millisecond {
 				fail("the log is %v past its read-only date but the sequencer is still running (%s)", time.Since(start)-time.Duration(plan.ReadOnly+10)*time.Millisecond, where)
 			}
 			for _, w := range waiters {
@@ -225,7 +240,7 @@ func c17Run(t *testing.T, plan c17Plan, dir string, st map[string]int, desc *[]s
 			if f == nil {
 				return
 			}
-			w := &c17Waiter{id: len(waiters), entry: e, low: low, src: src}
+			w := &c17Waiter{id: len(waiters), entry: e, low: low, src: src, afterStop: stopSeen}
 			waiters = append(waiters, w)
 			go func() {
 				le, err := f(wctx)
@@ -266,6 +281,16 @@ func c17Run(t *testing.T, plan c17Plan, dir string, st map[string]int, desc *[]s
 			case "closed":
 				if src == "sequencer" || src == "pool" {
 					w.pool = cur
+				}
+				if stopSeen {
+					st["submissions-after-stop"]++
+					if acked[key] {
+						st["resubmissions-of-acknowledged-after-stop"]++
+					}
+					synctest.Wait()
+					if done, le, err := w.outcome(); !done || err == nil {
+						fail("the sequencer has stopped (%v) but a later submission of entry %d did not fail: done=%v entry=%v err=%v source=%s", seqErr, e.ID, done, le, err, src)
+					}
 				}
 			case "sequencer+evict":
 				st["evictions"]++
@@ -470,17 +495,23 @@ func TestVerifC17Admission(t *testing.T) {
 			if strings.Contains(err.Error(), "VERIF-INCONCLUSIVE") {
 				t.Fatalf("%v", err)
 			}
-			rt.Fatalf("C17 violated: %v\nplan: poolSize=%d faults=%v readOnlyAt=%dms\ntimeline:\n  %s", err, plan.PoolSize, plan.Faults, plan.ReadOnly, strings.Join(desc, "\n  "))
+			rt.Fatalf("C17 violated: %v\nplan: poolSize=%d faults=%v readOnlyAt=%dms clockFreezeAt=%dms(back %dms)\ntimeline:\n  %s", err, plan.PoolSize, plan.Faults, plan.ReadOnly, plan.FreezeAt, plan.FreezeBack, strings.Join(desc, "\n  "))
 		}
 		nt := st["evictions"] > 0 || (st["stops"] > 0 && st["pending-failed-at-stop"] > 0)
 		var cls []string
-		for _, k := range []string{"evictions", "rejections", "pool-filled", "stops", "cancels", "read-only-stops", "sunset-errors", "pending-failed-at-stop"} {
+		for _, k := range []string{"evictions", "rejections", "pool-filled", "stops", "cancels", "read-only-stops", "sunset-errors", "pending-failed-at-stop", "submissions-after-stop", "resubmissions-of-acknowledged-after-stop"} {
 			if st[k] > 0 {
 				cls = append(cls, k)
 			}
 			rec.Add(k, int64(st[k]))
 		}
 		cls = append(cls, fmt.Sprintf("poolSize=%d", plan.PoolSize))
-		rec.CaseSample(fmt.Sprintf("pool=%d faults=%v ro=%d %s", plan.PoolSize, plan.Faults, plan.ReadOnly, strings.Join(desc, "; ")), desc, nt, cls...)
+		if plan.FreezeAt > 0 {
+			cls = append(cls, "clock-stall-or-step-back")
+			if st["stops"] > 0 {
+				cls = append(cls, "clock-anomaly-and-stop")
+			}
+		}
+		rec.CaseSample(fmt.Sprintf("pool=%d faults=%v ro=%d freeze=%d/-%d %s", plan.PoolSize, plan.Faults, plan.ReadOnly, plan.FreezeAt, plan.FreezeBack, strings.Join(desc, "; ")), desc, nt, cls...)
 	})
 }
